@@ -2,11 +2,16 @@
    [half_unit qp] is half a unit of the quote precision (the "up to rounding" of the statement).
    Proved per (order, bar): limit / stop-limit price and reach, stop and stop-limit triggers, market and stop
    range and reference price, for every liquidity state, every amount and every precision.
-   C04_partial: the completeness sentence (with unlimited liquidity and ample funds orders are filled by the next /
-   first reaching bar) is checked by the monitor on dedicated histories, not proved. *)
+   Completeness, market and stop orders (Complete.v): processing such an order against a bar of its pair closes it, with
+   its whole amount traded or nothing -- nothing only if no fill was proposed (liquidity, stop not reached), the fill
+   rounds to nothing, or the account lacks the funds; with unlimited liquidity a market order, and a stop order whose
+   stop the bar reaches, always get a fill proposed, hence are completely filled funds permitting.
+   C04_partial: the completeness sentence for limit orders (filled by the first bar whose range reaches the limit) is
+   checked by the monitor on dedicated histories, not proved. *)
 From Coq Require Import ZArith QArith List.
 From Basana Require Import Num.DecQ Num.DecQProofs Exchange.Model Exchange.OrderProofs
-     Exchange.Structure Exchange.FeeHistory Exchange.LimitHistory.
+     Exchange.Structure Exchange.FeeHistory Exchange.LimitHistory Exchange.FillTimes Exchange.NoPartial Exchange.FirstBar
+     Exchange.Complete.
 Import ListNotations.
 Open Scope Q_scope.
 
@@ -117,4 +122,60 @@ Proof.
     repeat (destruct Hin as [Hin|Hin]; [try discriminate Hin; inversion Hin; subst; unfold bar_ok; cbn; repeat split; discriminate|]).
     contradiction.
   - vm_compute. reflexivity.
+Qed.
+
+(* completeness of market and stop orders: what processing one such order against a bar of its pair leads to *)
+Theorem C04_market_or_stop_order_outcome : forall c s l o p when b s' l',
+  get_order s (o_id o) = Some o -> is_open o = true -> aon (o_kind o) -> NP c o ->
+  process_order c s l o p when b = Done s' l' ->
+  exists o', get_order s' (o_id o) = Some o' /\ is_open o' = false /\
+    (filled o' == o_amount o \/
+     (filled o' == 0 /\ (nothing_proposed c l o b \/ rounds_to_nothing c l o b \/ refused_for_funds c s o))).
+Proof. exact aon_order_outcome. Qed.
+Print Assumptions C04_market_or_stop_order_outcome.
+
+(* with unlimited liquidity a market order is completely filled by the bar that processes it, funds permitting *)
+Theorem C04_market_order_filled_funds_permitting : forall c s o p when b s' l',
+  get_order s (o_id o) = Some o -> is_open o = true -> o_kind o = KMarket -> NP c o ->
+  process_order c s None o p when b = Done s' l' ->
+  exists o', get_order s' (o_id o) = Some o' /\ is_open o' = false /\
+    (filled o' == o_amount o \/ (filled o' == 0 /\ (rounds_to_nothing c None o b \/ refused_for_funds c s o))).
+Proof. exact market_order_filled_funds_permitting. Qed.
+Print Assumptions C04_market_order_filled_funds_permitting.
+
+(* ... and so is a stop order when the bar's range reaches its stop price *)
+Theorem C04_stop_order_filled_when_reached_funds_permitting : forall c s o p when b sp s' l',
+  get_order s (o_id o) = Some o -> is_open o = true -> o_kind o = KStop sp -> 0 < sp -> NP c o -> bar_ok b ->
+  reaches_stop o b sp ->
+  process_order c s None o p when b = Done s' l' ->
+  exists o', get_order s' (o_id o) = Some o' /\ is_open o' = false /\
+    (filled o' == o_amount o \/ (filled o' == 0 /\ (rounds_to_nothing c None o b \/ refused_for_funds c s o))).
+Proof. exact stop_order_filled_when_reached_funds_permitting. Qed.
+Print Assumptions C04_stop_order_filled_when_reached_funds_permitting.
+
+(* the premises are met in a reachable state (the order invariant NP holds there by NoPartial.run_NI), and both exits
+   happen: with 1000 USD the market buy of 5 at 100 is filled completely; with 400 USD it is closed unfilled *)
+Example C04_completeness_premises_met :
+  let c := mkCfg [(1%positive, 2%nat); (2%positive, 2%nat)] [] None NoFee InfLiq NoLoans in
+  let p := (1%positive, 2%positive) in
+  let ops := [OBar p 60%Z (mkBar 50 50 50 50 10); OCreate KMarket Buy p 5 false false] in
+  let b := mkBar 100 101 99 100 10 in
+  forall funds, funds = 1000 \/ funds = 400 ->
+  let s := run c (init_st [(2%positive, funds)]) ops in
+  exists o, get_order s 0%nat = Some o /\ o_id o = 0%nat /\ is_open o = true /\ o_kind o = KMarket /\ NP c o /\
+    exists s' l', process_order c s None o p 120%Z b = Done s' l' /\
+      option_map (fun o' => Qred (filled o')) (get_order s' 0%nat) = Some (if Qeq_bool funds 1000 then 5 else 0).
+Proof.
+  intros c p ops b funds Hf s. subst s.
+  assert (Hc : cfg_ok c) by exact I.
+  assert (Ho : ops_ok ops) by (repeat constructor; cbn; discriminate).
+  assert (Hn : forall f, NI c (run c (init_st [(2%positive, f)]) ops)).
+  { intros f. apply run_NI; [exact Hc | exact Ho | apply WF_init | intros j x Hj; destruct j; discriminate Hj]. }
+  destruct Hf as [-> | ->].
+  - eexists. split; [vm_compute; reflexivity|]. split; [reflexivity|]. split; [reflexivity|]. split; [reflexivity|]. split.
+    + apply (Hn 1000 0%nat). vm_compute. reflexivity.
+    + eexists. eexists. split; vm_compute; reflexivity.
+  - eexists. split; [vm_compute; reflexivity|]. split; [reflexivity|]. split; [reflexivity|]. split; [reflexivity|]. split.
+    + apply (Hn 400 0%nat). vm_compute. reflexivity.
+    + eexists. eexists. split; vm_compute; reflexivity.
 Qed.
